@@ -70,6 +70,18 @@ theorem C16_iterate_order (fid : Nat) (cipher : Nat → Nat → UInt8) (us : Lis
   rw [hfuel, this, iterGo_nil]
   simp [IterResult.prepend]
 
+/-- **Value pointers point at the records.** Every `(entry, vptr)` delivered for well-formed units
+    has `vptr.Fid = fid`, and the `vptr.Len` bytes at file offset `vptr.Offset` are exactly the
+    encoding of that entry — so reading the value log at the pointer (`logFile.read` +
+    `decodeEntry`) returns the entry (`C16_roundtrip`). -/
+theorem C16_vptr_points_at_record (fid : Nat) (cipher : Nat → Nat → UInt8) (us : List LogUnit)
+    (d : Entry × ValuePointer) (hd : d ∈ deliveredUnits fid cipher vlogHeaderSize us) :
+    d.2.fid = fid ∧ vlogHeaderSize ≤ d.2.offset ∧
+    ((encodeAll cipher vlogHeaderSize (unitsEntries us)).drop (d.2.offset - vlogHeaderSize)).take d.2.len =
+      encodeEntry (cipher d.2.offset) d.1 := by
+  have := deliveredUnits_points fid cipher us vlogHeaderSize [] d hd
+  simpa using this
+
 /-- **Transaction units.** After any well-formed units, the records `p` of a transaction that
     is *not* followed contiguously by its own end marker — the file ends, is torn, or continues
     with anything that `Breaks` the transaction (a record without `bitTxn`, a record or marker
